@@ -15,7 +15,9 @@ import (
 // real code hands down to the Kubernetes client, so every write can be attributed to its caller.
 type opKey struct{}
 
-func withOp(ctx context.Context, idx int) context.Context { return context.WithValue(ctx, opKey{}, idx) }
+func withOp(ctx context.Context, idx int) context.Context {
+	return context.WithValue(ctx, opKey{}, idx)
+}
 
 type write struct {
 	op    int
